@@ -142,7 +142,11 @@ def wire : (t : Ty) → t.Abs → Bytes
   | .opt0 _, _ => []
   | .ary l t, xs => l.wire xs.length ++ (xs.map (wire t)).flatten
 
-/-- the protocol domain of each type (outside it the codec is lossy by design, and nothing is claimed) -/
+/-- the protocol domain of each type (outside it the codec is lossy by design, and nothing is claimed).
+String / Identifier: the VarInt prefix counts UTF-8 BYTES and the domain is `length in bytes < 2^31` (what a
+non-negative VarInt can carry). The protocol's "max 32767" for String is a limit in CHARACTERS (up to 3 bytes
+each, so up to 98301 bytes); the library enforces no character-count limit on either side, and a reader-side
+guard on the byte prefix (e.g. 32767) would reject strings the writer emits. -/
 def inDom : (t : Ty) → t.Abs → Prop
   | .string, bs | .bytearray, bs => bs.length < 2 ^ 31
   | .bitset, xs => xs.length < 2 ^ 31
